@@ -1075,6 +1075,15 @@ void run_conc_case(const Case& c, bool bin, const std::string& src, size_t nthre
     });
     if (!ok) return;
 
+    // the saved bytes of the built object (code-table oracle for the model; see PROTOCOL.md)
+    guarded(out, "file", [&] {
+        TempFile tf;
+        xcdat::save(*obj, tf.path);
+        std::vector<std::uint8_t> bytes;
+        if (!read_file(tf.path, bytes)) throw std::runtime_error("cannot read saved file");
+        out("file " + hex_of(bytes.data(), bytes.size()));
+    });
+
     if (src != "built") {
         ok = false;
         guarded(out, "use", [&] {
